@@ -120,7 +120,7 @@ func (p prop) RunCase(c *fw.Ctx, rng *fw.RNG, batch, i int) {
 					typedmon.MutatedDecodes(c, "gengo:"+t.Kind, ts, t, rp, rng, &cur)
 				}
 			}
-			if t.Kind == "map" || (t.Kind == "struct" && k%2 == 0) {
+			if t.Kind == "map" || t.Kind == "union" || (t.Kind == "struct" && k%2 == 0) {
 				for _, lvl := range []bool{false, true} {
 					typedmon.CheckRejectedKey(c, gen, ts, t, tv, lvl, rng)
 					typedmon.CheckRejectedKey(c, bind, ts, t, tv, lvl, rng)
